@@ -1253,3 +1253,27 @@ def fsyncer_order(ctx):
                      scenario="c04_recover_fsync", key="truncate_wal:do_sync ignored"))
     enc.add("bitbox::recover, bitbox::writeout::truncate_wal @ nomt/src/bitbox")
     return qs, enc
+
+
+# ---------------------------------------------------------------------------------------------
+# C03: what the rollback log's open does on every path (whatever the live range)
+
+def seglog_open_cleanup(ctx):
+    """seglog::open: on every path that returns Ok the directory was listed and the segments outside the
+    live range were removed (a crash can leave a segment file behind even when the published live range
+    is empty; the next append would otherwise collide with it)."""
+    prog = ctx.program("nomt")
+    f = _fn(prog, r"^seglog::open$", "seglog/mod.rs")
+    cfg = pathsmt.Cfg(f)
+    table = [(r"scan_root_dir", None, [("set", "listed")]),
+             (r"remove_nonlive_segments", None, [("bad_unless", "listed"), ("set", "cleaned")])]
+    ops, hits = _events(cfg, table)
+    oks = [bb for bb in cfg.order if any(re.match(r"_0 = Result::<.*>::Ok\(", s) for s in cfg.blocks[bb].stmts)]
+    if not oks:
+        raise Unmatched("no Ok block in seglog::open")
+    for bb in oks:
+        ops.setdefault(bb, []).extend([("bad_unless", "listed"), ("bad_unless", "cleaned")])
+    qs = [PQuery("seglog::open: directory listed -> non-live segments removed, on every path to Ok", cfg, ops, ["listed", "cleaned"], {},
+                 scenario="c03_first_commit_crash", key="seglog::open:Ok without listing / cleaning the directory"),
+          PQuery("seglog::open: Ok is reachable", cfg, {bb: [("bad", None)] for bb in oks}, [], {}, expect="sat")]
+    return qs, {"seglog::open @ nomt/src/seglog/mod.rs"}
